@@ -282,7 +282,12 @@ class Parser(AttrParser):
                 self.raise_error(
                     "Expected integer as SSA value tuple index", index_token.span
                 )
-            index = int(index_token.text[1:], 10)
+            try:
+                index = int(index_token.text[1:], 10)
+            except ValueError as e:
+                self.raise_error(
+                    f"Invalid SSA value tuple index: {e}", index_token.span
+                )
 
         return UnresolvedOperand(name_token.span, index)
 
